@@ -14,8 +14,15 @@ def digest (st : St) : List Int :=
     ++ m s.mtb ++ m s.mlr ++ [if s.declrmm then 1 else 0]
 
 def i2n (i : Int) : Nat := if i < 0 then (18446744073709551616 - (-i).toNat % 18446744073709551616) % 18446744073709551616 else i.toNat
-def digestHash (st : St) (out : String) : UInt64 :=
-  fnv ((digest st).map i2n ++ [(fnv (st.s.tabs.map i2n)).toNat] ++ out.toList.map Char.toNat)
+/-- the payload of the last `PlayMusic` action (note index into `FREQ`, duration, dotted; pause; style) and how many
+    tunes were handed out — the harness hashes the real `AnsiMusic` the same way -/
+def mactEnc : MAct → List Nat
+  | .note i l d => [1, i, i2n l, if d then 1 else 0]
+  | .pause v => [2, i2n v]
+  | .style s => [3, s]
+def musHash (last : List MAct) (tunes : Nat) : UInt64 := fnv ((last.map mactEnc).flatten ++ [tunes])
+def digestHash (st : St) (out : String) (mh : UInt64 := musHash [] 0) : UInt64 :=
+  fnv ((digest st).map i2n ++ [(fnv (st.s.tabs.map i2n)).toNat, mh.toNat] ++ out.toList.map Char.toNat)
 
 structure Acc where
   st : St
@@ -23,6 +30,8 @@ structure Acc where
   n : Nat := 0
   checkpoints : List UInt64 := []
   panic : Option String := none
+  tune : List MAct := []     -- payload of the last PlayMusic action handed to the caller
+  tunes : Nat := 0
 
 /-- items: `cp:lineLen:ext` -/
 def runItems (cfg : Cfg) (items : List String) (acc : Acc) : Acc :=
@@ -35,9 +44,13 @@ def runItems (cfg : Cfg) (items : List String) (acc : Acc) : Acc :=
         let o : Orc := { lineLen := ll, extOk := ext == "1" }
         match step cfg (fun _ => o) acc.st (Char.ofNat cp) with
         | .ok (st', out) =>
-          let h := fnvStep acc.h (digestHash st' (outStr out)).toNat
+          let (tune, tunes) := match playMusicOf acc.st (Char.ofNat cp) st' with
+            | some l => (l, acc.tunes + 1)
+            | none => (acc.tune, acc.tunes)
+          let h := fnvStep acc.h (digestHash st' (outStr out) (musHash tune tunes)).toNat
           let n := acc.n + 1
-          { acc with st := st', h := h, n := n, checkpoints := if n % 32 == 0 then h :: acc.checkpoints else acc.checkpoints }
+          { acc with st := st', h := h, n := n, tune := tune, tunes := tunes,
+                     checkpoints := if n % 32 == 0 then h :: acc.checkpoints else acc.checkpoints }
         | .error e => { acc with panic := some (reprStr e) }
       | _, _ => { acc with panic := some "bad-item" }
     | _ => { acc with panic := some "bad-item" }) acc
